@@ -85,6 +85,15 @@ package chained_bft
 //@   nocall Smr.LoadVotes votes_enter_only_checked
 
 // ======================= C15: pending-proposal tree =======================
+// Every confirmed block the consensus hands over reaches the tree, exactly once, whatever
+// its view is relative to the ledger state (a late block of a competing branch included);
+// the ledger state only grows.
+//@ func Smr.UpdateQcStatus
+//@   property C15
+//@   trustcallees
+//@   ensures every_accepted_proposal_reaches_the_tree: node != nil ==> sel(treeGot, node) == sel(old(treeGot), node) + 1
+//@   ensures ledger_state_only_grows: s.ledgerState >= old(s.ledgerState)
+
 //@ macro idOf(n) = n.In.GetProposalId()
 //@ macro parentIdOf(n) = n.In.GetParentProposalId()
 //@ macro viewOf(n) = n.In.GetProposalView()
@@ -151,8 +160,11 @@ package chained_bft
 //@   ensures markers_untouched: markersKept(t)
 
 // A proposal whose id is already in the tree is ignored; a new one is inserted once.
+// treeGot[n]: how often proposal node n was handed to the tree (ghost history).
+//@ ghost var treeGot (Array Int Int)
 //@ func QCPendingTree.updateQcStatus
 //@   property C15
+//@   sets treeGot = upd(old(treeGot), node, sel(old(treeGot), node) + 1)
 //@   requires node_given: node != nil && t.OrphanList != nil && t.Root != nil
 //@   requires certified_marker_set: t.HighQC != nil
 //@   requires markers_chained: chained(t)
